@@ -361,7 +361,7 @@ func TestC19_SocketWouldBlock(t *testing.T) {
 		ioc := theIO()
 		ln, err := sonic.Listen(ioc, "tcp", "127.0.0.1:0")
 		if err != nil {
-			t.Fatalf("listen: %v", err)
+			t.Fatalf("INFRA: listen: %v", err)
 		}
 		defer ln.Close()
 		_, port, err := sysx.LocalAddr4(ln.RawFd())
@@ -370,14 +370,16 @@ func TestC19_SocketWouldBlock(t *testing.T) {
 		}
 		sender, err := sonic.Dial(ioc, "tcp", fmt.Sprintf("127.0.0.1:%d", port))
 		if err != nil {
-			t.Fatalf("dial: %v", err)
+			t.Fatalf("INFRA: dial: %v", err)
 		}
 		defer sender.Close()
+		sysx.NoLinger(sender.RawFd())
 		receiver, err := ln.Accept()
 		if err != nil {
-			t.Fatalf("accept: %v", err)
+			t.Fatalf("INFRA: accept: %v", err)
 		}
 		defer receiver.Close()
+		sysx.NoLinger(receiver.RawFd())
 		sysx.SetBuf(sender.RawFd(), 32768, 0)
 		sysx.SetBuf(receiver.RawFd(), 0, 32768)
 
@@ -620,20 +622,22 @@ func TestC19_SocketChains(t *testing.T) {
 		ioc := theIO()
 		ln, err := sonic.Listen(ioc, "tcp", "127.0.0.1:0")
 		if err != nil {
-			t.Fatalf("listen: %v", err)
+			t.Fatalf("INFRA: listen: %v", err)
 		}
 		defer ln.Close()
 		_, port, _ := sysx.LocalAddr4(ln.RawFd())
 		sender, err := sonic.Dial(ioc, "tcp", fmt.Sprintf("127.0.0.1:%d", port))
 		if err != nil {
-			t.Fatalf("dial: %v", err)
+			t.Fatalf("INFRA: dial: %v", err)
 		}
 		defer sender.Close()
+		sysx.NoLinger(sender.RawFd())
 		receiver, err := ln.Accept()
 		if err != nil {
-			t.Fatalf("accept: %v", err)
+			t.Fatalf("INFRA: accept: %v", err)
 		}
 		defer receiver.Close()
+		sysx.NoLinger(receiver.RawFd())
 		n := rapid.IntRange(34, 120).Draw(t, "nitems")
 		items := make([][]byte, n)
 		var sizes []int
